@@ -134,4 +134,92 @@ def run_dedup(events):
 
 
 out['dedup'] = [run_dedup(evs) for evs in req.get('dedup', [])]
+
+
+# ------------------------------------------------------------------ the send loop itself (actual transmissions)
+class SimTime:
+    """virtual clock: sleep() advances it and injects the messages that other threads would enqueue meanwhile"""
+
+    def __init__(self, thread, injections):
+        self.now = 1000.0
+        self.t = thread
+        self.todo = sorted(injections, key=lambda x: x['at_ms'])
+        self.enqueued = []
+        self.steps = 0
+        self.in_hand = False      # the loop has taken an entry from the queue and not transmitted it yet
+
+    def time(self):
+        return self.now
+
+    def sleep(self, d):
+        self.steps += 1
+        if self.steps > 200000:
+            self.t._quit_send_event.set()
+            raise RuntimeError('send loop does not finish')
+        self.now += max(float(d), 0.0)
+        self.inject()
+
+    def inject(self):
+        while self.todo and 1000.0 + self.todo[0]['at_ms'] / 1000.0 <= self.now + 1e-9:
+            x = self.todo.pop(0)
+            fr.d0, fr.g = x['d0'], x['g']
+            before = list(self.t._send_queue.queue)
+            self.t._repeated_enqueue_msg(x['id'], getattr(nt, x['params']))
+            new = [e for e in self.t._send_queue.queue if not any(e is b for b in before)]
+            # [message, transmission number, due time, time of the enqueue call, was the queue empty before]
+            self.enqueued += [[x['id'], e.repeat, round((e.send_time - 1000.0) * 1e6), round((self.now - 1000.0) * 1e6),
+                               not before and not self.in_hand] for e in new]
+        if not self.todo:
+            self.t._quit_send_event.set()      # nothing more will come: the loop ends when the queue is drained
+
+
+class SimQueue(queue.PriorityQueue):
+    """a blocking get() with a timeout waits in VIRTUAL time"""
+    sim = None
+
+    def get(self, block=True, timeout=None):
+        if self.empty() and block and timeout:
+            self.sim.sleep(timeout)
+        if self.empty():
+            raise queue.Empty
+        self.sim.in_hand = True
+        return super().get(block=False)
+
+
+class FakeKey:
+    fileobj = 'sock'
+
+
+class FakeSelector:
+    def select(self, timeout=None):
+        return [(FakeKey(), 1)]
+
+
+def run_sendloop(injections):
+    t = mk_thread()
+    t._send_queue = SimQueue(10000)
+    sim = SimTime(t, injections)
+    t._send_queue.sim = sim
+    sent = []
+    t._outbound_selector = FakeSelector()
+
+    def record(q_msg, s):
+        sim.in_hand = False
+        sent.append([q_msg.msg, q_msg.repeat, round((sim.now - 1000.0) * 1e6)])
+    t._send_msg = record
+    old = nt.time
+    nt.time = sim
+    err = None
+    try:
+        sim.inject()
+        t._run_send()
+    except Exception as e:  # noqa: BLE001
+        err = f'{type(e).__name__}: {e}'
+    finally:
+        nt.time = old
+    return {'enqueued': sim.enqueued, 'sent': sent, 'error': err, 'left': t._send_queue.qsize(),
+            'raster_us': [round(nt.SEND_LOOP_IDLE_SLEEP * 1e6), round(nt.SEND_LOOP_BUSY_SLEEP * 1e6)]}
+
+
+out['sendloop'] = [run_sendloop(x) for x in req.get('sendloop', [])]
 print(json.dumps(out))
